@@ -4,7 +4,7 @@ from __future__ import annotations
 import ast
 from typing import List, Optional, Set
 
-from ..an import avoiding_path, cut, is_method_call
+from ..an import avoiding_path, cut, flows_from_calls, is_method_call
 from ..cfg import calls_at, node_exprs
 from ..core import Checker
 from ..effects import destructive_kind
@@ -181,8 +181,8 @@ def check(ck: Checker) -> None:
                 for x in walk_expr(alt):
                     if isinstance(x, ast.Name):
                         removal_lists.add(x.id)
-    listing_loops = [h for h in g.nodes.values() if h.kind == "for" and any(
-        isinstance(x, ast.Call) and is_method_call(x, "all", "_list_oids", "list_oids") for x in walk_expr(h.ast.iter))]
+    listing_calls = [x for x in walk_own(gc.node) if isinstance(x, ast.Call) and is_method_call(x, "all", "_list_oids", "list_oids")]
+    listing_loops = [h for h in g.nodes.values() if h.kind == "for" and flows_from_calls(g, h, h.ast.iter, listing_calls)]
     ck.floor("C06.used", len(listing_loops), 1, "loops over the store listing")
     for head in listing_loops:
         lv = head.ast.target.id if isinstance(head.ast.target, ast.Name) else None
@@ -309,17 +309,38 @@ def _check_used_fill(ck: Checker, gc: Func, g, us: str) -> None:
         return
 
     # expansion: on the isdir & not shallow path the listed files are added
-    ups = []
+    tnames = tree_typed_names(ck, gc)
+    ups = []  # (must-node, description, outer loop head)
     for x in g.nodes.values():
+        if not x.loops:
+            continue
+        h = g.nodes[x.loops[0]]
+        if not (h.kind == "for" and isinstance(h.ast.iter, ast.Name) and h.ast.iter.id == "used"):
+            continue
         for c in calls_at(x):
-            if is_method_call(c, "update", "add") and isinstance(c.func.value, ast.Name) and c.func.value.id == us and x not in adds and x.loops:
-                h = g.nodes[x.loops[0]]
-                if h.kind == "for" and isinstance(h.ast.iter, ast.Name) and h.ast.iter.id == "used":
-                    ups.append((x, c, h))
+            if is_method_call(c, "update") and isinstance(c.func.value, ast.Name) and c.func.value.id == us and c.args:
+                arg = c.args[0]
+                okv = False
+                if isinstance(arg, (ast.GeneratorExp, ast.ListComp, ast.SetComp)) and isinstance(arg.generators[0].iter, ast.Name) and arg.generators[0].iter.id in tnames:
+                    tgt = arg.generators[0].target
+                    if isinstance(tgt, ast.Tuple) and len(tgt.elts) >= 3 and isinstance(tgt.elts[-1], ast.Name):
+                        okv = norm(arg.elt) == f"{tgt.elts[-1].id}.value" and not any(
+                            g2.ifs and any(norm(i) != tgt.elts[-1].id for i in g2.ifs) for g2 in arg.generators)
+                ck.require(okv, "C06.used", gc, x, "adds <hash_info>.value of every listed entry", f"expanding mode does not add `.value` of each listed entry's hash: {norm(arg)}", construct=f"{norm(c)} / values")
+                ups.append((x, norm(c), h))
+        if x.kind == "for" and len(x.loops) == 2 and isinstance(x.ast.iter, ast.Name) and x.ast.iter.id in tnames and isinstance(x.ast.target, ast.Tuple) and len(x.ast.target.elts) >= 3:
+            third = norm(x.ast.target.elts[-1])
+            inner_adds = {y.id for y in g.nodes.values() if x.id in y.loops for c in calls_at(y)
+                          if is_method_call(c, "add") and norm(c.func.value) == us and c.args and norm(c.args[0]) == f"{third}.value"}
+            if inner_adds:
+                rr = g.reach([d for lab, d in x.succ if lab == "T"], skip_node=lambda y: y.id in inner_adds,
+                             skip_edge=lambda a, l, b, third=third: l == "exc" or (a.kind == "test" and norm(a.ast) == third and l == "F"))
+                ck.require(x.id not in rr, "C06.used", gc, x, "every listed entry with a hash is added to the used set", "a listed entry can be skipped without being added to the used set", construct=f"for ... in {x.ast.iter.id} / NODROP")
+                ups.append((x, f"for ... in {x.ast.iter.id}: {us}.add({third}.value)", h))
     if not ups:
         ck.fail("C06.used", gc, gc.node, "expanding mode: files listed by a used directory are never added to the used set")
         return
-    for x, c, h in ups:
+    for x, desc, h in ups:
         def skip(n, lab, d):
             if lab == "exc" or _name_mismatch_edge(n, lab):
                 return True
@@ -339,18 +360,7 @@ def _check_used_fill(ck: Checker, gc: Func, g, us: str) -> None:
                    "for a used directory in expanding mode the listed files always reach the used set",
                    "a used directory can pass through expanding mode without its files being added to the used set",
                    witness=g.fmt_path(g.path_to(reached, h.id)) if bad else None,
-                   construct=f"{norm(c)} / FOLLOW(isdir & not shallow)")
-        arg = c.args[0] if c.args else None
-        okv = False
-        if arg is not None and isinstance(arg, (ast.GeneratorExp, ast.ListComp, ast.SetComp)):
-            tgt = arg.generators[0].target
-            if isinstance(tgt, ast.Tuple) and len(tgt.elts) >= 3 and isinstance(tgt.elts[-1], ast.Name):
-                okv = norm(arg.elt) == f"{tgt.elts[-1].id}.value" and not any(
-                    g2.ifs and any(norm(i) != tgt.elts[-1].id for i in g2.ifs) for g2 in arg.generators)
-        ck.require(okv, "C06.used", gc, x,
-                   "adds <hash_info>.value of every listed entry",
-                   f"expanding mode does not add `.value` of each listed entry's hash: {norm(arg) if arg is not None else '?'}",
-                   construct=f"{norm(c)} / values")
+                   construct=f"{desc} / FOLLOW(isdir & not shallow)")
 
 
 def _check_count(ck: Checker, gc: Func, g, destr) -> None:
